@@ -5,6 +5,7 @@ From Coq Require Import List NArith Bool Arith Sorted.
 From Coq Require Import Strings.Byte.
 Require Import BS.Bytes BS.Common BS.Api BS.Layout BS.Format BS.FormatFacts BS.Spec BS.SpecStep BS.Sections BS.ExtractFacts.
 Require Import BS.FS BS.FSFacts BS.Meta BS.MetaFacts BS.Header BS.Reader BS.ReaderFacts BS.Index BS.Data BS.DataFacts BS.Seek BS.Series BS.SeriesFacts BS.ReadAllFacts BS.TotalFacts BS.OpenFacts BS.CacheFacts BS.CacheOpenFacts BS.TornGenFacts BS.CacheCreateFacts BS.HistoryFacts.
+Require Import BS.World BS.Known BS.Judge BS.JudgeFacts BS.JudgeCacheFacts.
 Import ListNotations.
 
 
@@ -113,6 +114,27 @@ Theorem C09_missing_levels_recreated : forall p fs name uhdr popt hdropt cb l (B
             = Some (outer [] ++ enc_index (sections p (encode p (cache_of p (N.to_nat B) l))))) (s_down s) Bs.
 Proof. exact builder_open_mixed. Qed.
 Print Assumptions C09_missing_levels_recreated.
+(* (I refines S, at the level of the public API, across reopen) EVERY HISTORY of a series created with any cache levels -
+   appends accepted or refused, all reads, resampling reads through the levels, counts, accessors, and clean close-and-reopen
+   steps with the same levels at line counts that are multiples of every bucket size (reopen_valid_caches; the marker-word
+   condition on the series and on every level for payload sizes 0..3), and reopen steps before which BOTH FILES OF ANY OF THE
+   LEVELS WERE REMOVED (CHLost / reopen_valid_lost: the lost levels are re-created from the source at ANY line count - complete
+   buckets on disk, the open bucket carried in memory; only the levels that stayed must be aligned) - run on the model of the
+   library is ACCEPTED BY THE JUDGE
+   at every step, and after every step (the closed states in between included) the files of the model - the data and index file
+   of the series and of EVERY level - are byte for byte the files the judge expects: "intact caches stay byte-identical" across
+   any number of reopen cycles, and every level stays the bucket means of the lines of the source *)
+Theorem C09_history_with_caches_accepted_by_judge : forall (name:list byte) (p:nat) (hdr:list byte) (Bs:list N),
+  (len (params_to_text BSgen.Consts.version (N.of_nat p) ++ hdr) <= 65535)%N -> (N.of_nat p < 2^64)%N ->
+  Forall (fun B => (1 <= B)%N /\ (len (config_header name B) <= 65535)%N) Bs ->
+  NoDup ([name ++ ext_data; name ++ ext_index] ++ flat_map (cache_names name) Bs) ->
+  StronglySorted le (map fst (map (open_spec name) Bs)) ->
+  forall cb hs, chvalid p hdr Bs [] hs ->
+  accepted World.init_world judge_init (ONew name (N.of_nat p) hdr Bs cb :: cflatten name Bs hs).
+Proof. exact history_accepted_caches. Qed.
+Print Assumptions C09_history_with_caches_accepted_by_judge.
+Check history_caches_example.
+
 (* partial: reopen at a line count that is not a multiple of a bucket size, and every damaged state of the caches, are outside
    these theorems: there the library deviates (known finding D10: the repair resumes after the MEAN timestamp of the last bucket
    and the open bucket is reset) and the judge reports it as KNOWN-FINDING. Payload sizes 0..3 with 0xFFFF continuation words: D6. *)
